@@ -102,7 +102,7 @@ func RunCleanerLoop(e *Engine, rounds int, ipA, ipB int) {
 	}
 	task := jsync.NewTask("http://" + ip + ":9501")
 	e.rec(Op{K: "cleaner-loop-start", Name: latest})
-	e.Retag = "C11"
+	e.Retag = e.Prop // C11 or C06: what a deletion does to live data and retained snapshots
 	go task.InternalSnapshotCleaner(e.Srv, repClient)
 	for round := 0; round < rounds && !e.Dead; round++ {
 		before := len(e.M.Chain)
@@ -151,4 +151,45 @@ func RunCleanerLoop(e *Engine, rounds int, ipA, ipB int) {
 	e.nMut++
 	e.nReopen++
 	e.nUnaligned++
+}
+
+// RunFragmented builds a layer with more than 1024 separate extents (the batch size of the extent scan), snapshots
+// it, overwrites part of it and reopens with preload and reclamation on: every block must still read back.
+func RunFragmented(e *Engine) {
+	blocks := 2400 + e.R.Intn(800)
+	e.Cfg = map[string]interface{}{"blocks": blocks, "punch": true, "profile": "C01-fragmented-layer"}
+	if err := e.Create(int64(blocks)*Block, true); err != nil {
+		e.Res.Inconclusive = append(e.Res.Inconclusive, "fragmented: create: "+err.Error())
+		return
+	}
+	defer e.Destroy()
+	// every other block: one extent per block
+	for b := 0; b < blocks && !e.Dead; b += 2 {
+		wid := e.M.NextWID
+		e.M.NextWID++
+		if _, err := e.Srv.WriteAt(Payload(int64(b)*Block, Block, wid), int64(b)*Block); err != nil {
+			e.Fail("C01", "write:error-in-RW", err.Error())
+			return
+		}
+		e.M.Write(int64(b)*Block, Block, wid)
+	}
+	e.Res.Count("writes", int64(blocks/2))
+	e.rec(Op{K: "fragmented-fill", Len: int64(blocks / 2)})
+	e.Snapshot(false)
+	for i := 0; i < 40 && !e.Dead; i++ {
+		o, l, _ := e.GenRange()
+		e.Write(o, l)
+	}
+	e.Snapshot(e.R.Bool())
+	for i := 0; i < 20 && !e.Dead; i++ {
+		o, l, _ := e.GenRange()
+		e.Write(o, l)
+	}
+	e.Check(false)
+	e.Reopen(true)
+	e.Check(true)
+	e.Reload()
+	e.Check(false)
+	e.Reopen(false)
+	e.Check(false)
 }
